@@ -122,7 +122,13 @@ func float64exp(f float64) int {
 	if exp10 < 0 {
 		exp10 -= 1.0
 	}
-	return int(exp10)
+	exp := int(exp10)
+
+	// the estimate from the binary exponent may be too high (always for subnormals), correct it
+	for f != 0.0 && math.Abs(f) < math.Pow10(exp) {
+		exp--
+	}
+	return exp
 }
 
 // AppendFloat appends a float to `b` with precision `prec`. It returns the new slice and whether successful or not. Precision is the number of decimals to display, thus prec + 1 == number of significant digits.
